@@ -241,7 +241,7 @@ func (self *CompactMerkleTree) merkleRoot(n uint32) common.Uint256 {
 
 // ConsistencyProof returns consistency proof
 func (self *CompactMerkleTree) ConsistencyProof(m, n uint32) []common.Uint256 {
-	if m > n || self.treeSize < n || self.hashStore == nil {
+	if m == 0 || m > n || self.treeSize < n || self.hashStore == nil {
 		return nil
 	}
 
